@@ -68,16 +68,40 @@ func propReal(t *rapid.T) {
 			}}
 		children = append(children, act.SupervisorChildSpec{Name: gen.Atom(name), Factory: kit.Factory(cfg)})
 	}
+	// the last 0-2 children are not part of the initial specification: they are added with
+	// AddChild once the supervisor runs (they must be supervised like the others)
+	late := rapid.IntRange(0, 2).Draw(t, "added_later")
+	if late > n-1 {
+		late = n - 1
+	}
+	initial, added := children[:n-late], children[n-late:]
 	var supReason error
 	supDead := make(chan struct{})
 	sup, err := node.Spawn(kit.SupFactory(&kit.SupConfig{Label: "sup", Probe: probe,
 		Spec: func(args ...any) (act.SupervisorSpec, error) {
-			return act.SupervisorSpec{Type: typ, Children: children, DisableAutoShutdown: true,
+			return act.SupervisorSpec{Type: typ, Children: initial, DisableAutoShutdown: true,
 				Restart: act.SupervisorRestart{Strategy: strategy, Intensity: 1000, Period: 5, KeepOrder: keep}}, nil
 		},
 		OnTerm: func(s *kit.Sup, reason error) { supReason = reason; close(supDead) }}), gen.ProcessOptions{})
 	if err != nil {
 		t.Fatalf("spawn supervisor: %v", err)
+	}
+	if len(added) > 0 {
+		var aerr error
+		done := make(chan struct{})
+		if err := node.Send(sup, kit.DoSup{F: func(s *kit.Sup) {
+			for _, c := range added {
+				if e := s.AddChild(c); e != nil && aerr == nil {
+					aerr = e
+				}
+			}
+		}, Done: done}); err != nil {
+			t.Fatalf("send to supervisor: %v", err)
+		}
+		<-done
+		if aerr != nil {
+			t.Fatalf("AddChild: %v", aerr)
+		}
 	}
 	view := func() ([]act.SupervisorChild, bool) {
 		var out []act.SupervisorChild
